@@ -322,7 +322,9 @@ fn walk_roots() {
                 if snap.finalized() != o.model_finalized && !o.tainted {
                     let sig = format!("already-finalized/{}", if snap.finalized() { "unexpected-true" } else { "unexpected-false" });
                     let d = format!("already_finalized() of obj{} is {}, model says {}", oid, snap.finalized(), o.model_finalized);
-                    w.violation(&["C05"], "already-finalized", sig, d, false);
+                    // losing the flag on a resurrected object is what makes a second finalization possible (C06)
+                    let props: &[&str] = if o.resurrected && !snap.finalized() { &["C05", "C06"] } else { &["C05"] };
+                    w.violation(props, "already-finalized", sig, d, false);
                 }
             }
         }
